@@ -390,7 +390,7 @@ func vhRecordArtifact(path string, hashAlgorithms []string, lineNormalization bo
 	return HashObj{"sha256": "digest-of-" + path}, nil
 }
 
-// a = {#entries, follow directory symlinks (0/1), #strip prefixes (0..2: "ROOT/", then "sub/")}
+// a = {#entries, follow directory symlinks (0/1), strip list (0 none, 1 [ROOT/], 2 [ROOT/,sub/], 3 [sub/,ROOT/], 4 [ROOT/b/], 5 [ROOT/b/,ROOT/], 6 [ROOT/sub/a/,ROOT/b/])}
 func vh_C13_walk(a []int) {
 	n, follow, nstrip := a[0], a[1] == 1, a[2]
 	strip := nstrip > 0
@@ -410,14 +410,27 @@ func vh_C13_walk(a []int) {
 	if nstrip == 3 {
 		strips = []string{"sub/", "ROOT/"}
 	}
+	// prefixes that reach past the place of a (possibly symlinked) directory into it
+	if nstrip == 4 {
+		strips = []string{"ROOT/b/"}
+	}
+	if nstrip == 5 {
+		strips = []string{"ROOT/b/", "ROOT/"}
+	}
+	if nstrip == 6 {
+		strips = []string{"ROOT/sub/a/", "ROOT/b/"}
+	}
 	got, err := RecordArtifacts([]string{"ROOT"}, []string{"sha256"}, []string{"x"}, strips, false, follow)
 	vObserve("walk", err == nil, len(got))
 	// reference: what must be recorded
 	want := map[string]string{}
 	fail := false
 	name := func(p string) string {
-		if strip && strings.HasPrefix(p, "ROOT/") {
-			return p[len("ROOT/"):]
+		// only the first prefix that matches is stripped
+		for _, s := range strips {
+			if strings.HasPrefix(p, s) {
+				return p[len(s):]
+			}
 		}
 		return p
 	}
@@ -432,14 +445,21 @@ func vh_C13_walk(a []int) {
 		if e.exclude {
 			continue
 		}
+		put := func(n, d string) {
+			// two files that get the same name after stripping are an error
+			if _, dup := want[n]; dup {
+				fail = true
+			}
+			want[n] = d
+		}
 		switch e.kind {
 		case 0:
-			want[name(e.path)] = "digest-of-" + e.path
+			put(name(e.path), "digest-of-"+e.path)
 		case 2:
-			want[name(e.path)] = "digest-of-" + e.target
+			put(name(e.path), "digest-of-"+e.target)
 		case 3:
 			if follow {
-				want[name(e.path+"/inner")] = "digest-of-" + e.target + "/inner"
+				put(name(e.path+"/inner"), "digest-of-"+e.target+"/inner")
 			}
 		case 5:
 			fail = true
@@ -470,6 +490,9 @@ func vh_C13_walk(a []int) {
 func vh_C16_calls(a []int) {
 	vhTree = []vhEntry{{path: "ROOT/a", kind: vChoice("kind", 4), target: "T1"}}
 	_, e1 := RecordArtifacts([]string{"ROOT"}, []string{"sha256"}, nil, nil, false, true)
+	// ... and without following directory symlinks, over a tree with a file symlink
+	vhTree = []vhEntry{{path: "ROOT/a", kind: vChoice("kind2", 4), target: "T1"}, {path: "ROOT/l", kind: 2, target: "T2"}}
+	_, e1b := RecordArtifacts([]string{"ROOT"}, []string{"sha256"}, nil, []string{"ROOT/"}, true, false)
 	md := vhNewWrapper(a[0] == 1, Link{Type: "link", Name: "N0"})
 	e2 := md.Sign(vhEdKey(0, true))
 	e3 := md.VerifySignature(vhEdKey(0, false))
@@ -486,7 +509,7 @@ func vh_C16_calls(a []int) {
 	vhFiles = map[string][]byte{}
 	e9 := md.Dump("c16.link")
 	_, e10 := LoadMetadata("c16.link")
-	vObserve("calls", e1 == nil, e2 == nil, e3 == nil, e4 == nil, e5 == nil, e6 == nil, e7 == nil, e8 == nil, e9 == nil, e10 == nil)
+	vObserve("calls", e1 == nil, e1b == nil, e2 == nil, e3 == nil, e4 == nil, e5 == nil, e6 == nil, e7 == nil, e8 == nil, e9 == nil, e10 == nil)
 	vReach("C16.end")
 }
 
